@@ -1,7 +1,7 @@
 (* C02 — Watermark discipline: no early firing, no on-time loss, bounded late updates.
    Statements only. Tumbling window; the sliding and session windows share Model/Watermark.v. *)
 From Coq Require Import Lia.
-From SV Require Import Model.Tumbling Proofs.TumblingProofs Proofs.TumblingComplete Proofs.TumblingWatermark.
+From SV Require Import Model.Session Model.Tumbling Model.Sliding Proofs.TumblingProofs Proofs.TumblingComplete Proofs.TumblingWatermark Proofs.WindowsWatermark.
 
 (* every watermark the trigger goroutine ever receives is (timestamp of an ingested, not
    far-future event) - MAXOUTOFORDERNESS, and a window [s,e) fires for the first time only after
@@ -35,3 +35,22 @@ Theorem C02_drop_only_if_late : forall c id ts now s,
   In (id, ts) (data (fst (add_core c id ts now s))).
 Proof. exact not_late_buffered. Qed.
 Print Assumptions C02_drop_only_if_late.
+
+(* the same discipline for the sliding window ... *)
+Theorem C02_no_early_fire_sliding : forall c h s tr,
+  srun c sst0 h = (s, tr) ->
+  (forall x, In (EvDB x) tr -> saccepted_wm c h x) /\
+  (forall b, In (EvBatch b) tr -> b_late b = false ->
+     exists id ts now, In (Add id ts now) h /\ (now + sooo c + day <? ts) = false /\ b_end b + sooo c <= ts).
+Proof. exact sliding_no_early_fire. Qed.
+Print Assumptions C02_no_early_fire_sliding.
+
+(* ... and for the session window: a session is delivered only by the expiry step of a received
+   watermark >= its end, and every received watermark comes from an accepted event *)
+Theorem C02_no_early_delivery_session : forall c h s tr,
+  nrun c nst0 h = (s, tr) ->
+  (forall x, In (SvDB x) tr -> naccepted_wm c h x) /\
+  (forall s' evs k st en rows, nstep c s NFire = (s', evs) -> In (SvBatch k st en rows) evs ->
+     exists id ts key now, In (NAdd id ts key now) h /\ (now + nooo c + day <? ts) = false /\ en + nooo c <= ts).
+Proof. exact session_no_early_delivery. Qed.
+Print Assumptions C02_no_early_delivery_session.
